@@ -412,6 +412,10 @@ def ops_for(mode, n, tier, light=False):
     ops.append(("delitem", ["s", None, None, 0]))
     # the list itself as the right-hand side; equal-but-other replacements
     ops += [("extend", "SELF"), ("iadd", "SELF")]
+    if light:
+        # (depth-2 menus stay small: menu size enters squared)
+        ops.append(("setitem", ["s", None, None, None], "SELF"))
+        return ops
     small = [None] + list(range(-(n + 1), n + 2))
     for st in small:
         for sp in small:
